@@ -159,6 +159,9 @@ def render_verilog(nl, lib, seed, simple=False, modname='top'):
             net[src] = f'u_{src}'                       # implicit wire, never declared
         elif style == 2:
             nm = f'h/{src}.x[{st.pick(9)}]'
+            cands = [v for v in net.values() if v.replace('_', 'a').isalnum() and ('\\' + v) not in net.values()]
+            if cands and not simple and st.pick(3) == 0:
+                nm = '\\' + cands[st.pick(len(cands))]    # an escaped identifier whose own text starts with a backslash and continues like another net's name
             net[src] = nm                               # needs an escaped identifier
         elif style == 3:
             pending_bus.append(src)
@@ -184,7 +187,7 @@ def render_verilog(nl, lib, seed, simple=False, modname='top'):
     onebit = {f'{bn}[{rng[0]}]': bn for bn, rng in pi_decls + po_decls if rng is not None and rng[0] == rng[1]}
 
     def plain(n):
-        if n.startswith('h/'): return esc(n)
+        if n.startswith('h/') or n.startswith('\\'): return esc(n)
         if n.startswith('w1_'): return n if st.pick(2) else n + '[0]'
         if n in onebit and not simple and st.pick(2): return onebit[n]      # one-bit port bus [k:k] referenced without index
         if not simple and n.endswith(']') and st.pick(5) == 0:              # a bit select may be written with leading zeros: d[07]
